@@ -41,10 +41,39 @@ let emit_mode line = show_strs (get_lines (parse_toks (ints line)))
 let fbl_mode line = show_toks (fix_blank_lines (parse_toks (ints line)))
 let ftw_mode line = show_toks (fix_trailing_whitespace (parse_toks (ints line)))
 
+(* code tags: tokens "k -2 cps -1" with k = 0 other, 1 comment, 2 carriage return *)
+let tags_mode line =
+  let toks = List.map (fun t -> match t with
+     | k :: (-2) :: v -> { ck = (match k with 2 -> CCr | 1 -> CComment | _ -> COther); cv = str_of_ints v }
+     | _ -> failwith "bad token") (split_lines (ints line)) in
+  String.concat " | " (List.map (fun tl -> String.concat " , " (List.map show_str tl)) (stamp toks))
+
+(* tokens, then -3, then queries "rule-cps -2 idx idx ... -1": prints 1 if the violation is suppressed *)
+let rec split_at3 acc = function
+  | [] -> (List.rev acc, [])
+  | (-3) :: r -> (List.rev acc, r)
+  | x :: r -> split_at3 (x :: acc) r
+let rec split_at2 acc = function
+  | [] -> (List.rev acc, [])
+  | (-2) :: r -> (List.rev acc, r)
+  | x :: r -> split_at2 (x :: acc) r
+let tagsq_mode line =
+  let (tk, qs) = split_at3 [] (ints line) in
+  let toks = List.map (fun t -> match t with
+     | k :: (-2) :: v -> { ck = (match k with 2 -> CCr | 1 -> CComment | _ -> COther); cv = str_of_ints v }
+     | _ -> failwith "bad token") (split_lines tk) in
+  let stamps = Array.of_list (stamp toks) in
+  String.concat " " (List.map (fun q ->
+     let (rule, idxs) = split_at2 [] q in
+     let sts = List.map (fun i -> stamps.(i)) idxs in
+     if violation_suppressed sts (str_of_ints rule) then "1" else "0") (split_lines qs))
+
 let () =
   let mode = if Array.length Sys.argv > 1 then Sys.argv.(1) else "tokenizer" in
   let f = match mode with
     | "tokenizer" -> tokenizer
+    | "tags" -> tags_mode
+    | "tagsq" -> tagsq_mode
     | "read" -> read_mode
     | "emit" -> emit_mode
     | "fbl" -> fbl_mode
